@@ -27,7 +27,8 @@ def sh(cmd, cwd=None, timeout=1800, env=None):
 def demo_cmd(d, meta):
     cmd = meta.get("demo_cmd") or "PYTHONPATH=py /venv/bin/python demo.py"
     cmd = re.sub(r"\s+\(.*$", "", cmd.strip(), flags=re.S)     # drop trailing prose
-    cmd = re.sub(r"^cd\s+\S+\s*&&\s*", "", cmd)                # we set the cwd ourselves
+    cmd = re.sub(r"\s+#.*$", "", cmd, flags=re.S)               # drop a trailing shell comment
+    cmd = re.sub(r"^cd\s+(<[^>]*>|\S+)\s*&&\s*", "", cmd)      # we set the cwd ourselves
     # make the demo path absolute to this directory
     cmd = re.sub(r"(/tmp/wt/\w+_out\d*/\d+/|/verif/seeded/[\w-]+/|(?<![\w/])seeded/[\w-]+/)", d.rstrip("/") + "/", cmd)
     if "demo" in cmd and d not in cmd:
